@@ -139,13 +139,19 @@ macro_rules! roll1_valid_call {
             "ts_vrank" => Some($view.ts_vrank_to::<$OC, $U>($w, $mp, $r.bool("pct"), $r.bool("rev"), $out)),
             "ts_vminmaxnorm" => Some($view.ts_vminmaxnorm_to::<$OC, $U>($w, $mp, $out)),
             "ts_vzscore" => Some($view.ts_vzscore_to::<$OC, $U>($w, $mp, $out)),
+            "ts_vreg" => Some($view.ts_vreg_to::<$OC, $U>($w, $mp, $out)),
+            "ts_vtsf" => Some($view.ts_vtsf_to::<$OC, $U>($w, $mp, $out)),
+            "ts_vreg_slope" => Some($view.ts_vreg_slope_to::<$OC, $U>($w, $mp, $out)),
+            "ts_vreg_intercept" => Some($view.ts_vreg_intercept_to::<$OC, $U>($w, $mp, $out)),
+            "ts_vreg_resid_mean" => Some($view.ts_vreg_resid_mean_to::<$OC, $U>($w, $mp, $out)),
             // ROLL1-VALID-APPEND
             _ => None,
         }
     };
 }
 pub const ROLL1_VALID: &[&str] = &["ts_vsum", "ts_vmean", "ts_vewm", "ts_vwma", "ts_vstd", "ts_vvar", "ts_vskew", "ts_vkurt",
-    "ts_vmin", "ts_vmax", "ts_vargmin", "ts_vargmax", "ts_vrank", "ts_vminmaxnorm", "ts_vzscore"];
+    "ts_vmin", "ts_vmax", "ts_vargmin", "ts_vargmax", "ts_vrank", "ts_vminmaxnorm", "ts_vzscore",
+    "ts_vreg", "ts_vtsf", "ts_vreg_slope", "ts_vreg_intercept", "ts_vreg_resid_mean"];
 
 /// the plain single-series entry points (T: Number)
 #[macro_export]
@@ -171,9 +177,16 @@ pub const ROLL1_PLAIN: &[&str] = &["ts_sum", "ts_mean", "ts_ewm", "ts_wma", "ts_
 macro_rules! roll2_call {
     ($f:expr, $view:expr, $view2:expr, $OC:ty, $U:ty, $out:expr, $w:expr, $mp:expr, $r:expr) => {
         match $f {
+            "ts_vcov" => Some($view.ts_vcov_to::<$OC, $U, _, _>($view2, $w, $mp, $out)),
+            "ts_vcorr" => Some($view.ts_vcorr_to::<$OC, $U, _, _>($view2, $w, $mp, $out)),
+            "ts_vregx_alpha" => Some($view.ts_vregx_alpha_to::<$OC, $U, _, _>($view2, $w, $mp, $out)),
+            "ts_vregx_beta" => Some($view.ts_vregx_beta_to::<$OC, $U, _, _>($view2, $w, $mp, $out)),
+            "ts_vregx_resid_mean" => Some($view.ts_vregx_resid_mean_to::<$OC, $U, _, _>($view2, $w, $mp, $out)),
+            "ts_vregx_resid_std" => Some($view.ts_vregx_resid_std_to::<$OC, $U, _, _>($view2, $w, $mp, $out)),
+            "ts_vregx_resid_skew" => Some($view.ts_vregx_resid_skew_to::<$OC, $U, _, _>($view2, $w, $mp, $out)),
             // ROLL2-APPEND
             _ => { let _ = (&$view, &$view2, $w, $mp, $out); None::<Option<$OC>> },
         }
     };
 }
-pub const ROLL2: &[&str] = &[];
+pub const ROLL2: &[&str] = &["ts_vcov", "ts_vcorr", "ts_vregx_alpha", "ts_vregx_beta", "ts_vregx_resid_mean", "ts_vregx_resid_std", "ts_vregx_resid_skew"];
